@@ -19,6 +19,7 @@ func init() {
 
 func C21(c *Ctx) {
 	c.Note("term/vote monotonicity across arbitrary histories; conflicting-overwrite semantics of the in-memory raft log; that fsync reaches the device; recovery replay order")
+	segmentNamesGroup(c, "K12.segment-name-codec")
 	const r1 = "K1.raft-wal-durable-before-return"
 	c.Rule(r1, "WALStorage.Append, SetHardState (non-empty state) and ApplySnapshot: every path from wal.AppendRecords to a nil return passes a successful wal.Manager.Sync (the manager is opened with SyncOnWrite=false, so the explicit Sync is the only point where the record leaves the user-space buffer); the in-memory raft storage is updated only after the record was appended")
 	for _, name := range []string{"WALStorage.Append", "WALStorage.SetHardState", "WALStorage.ApplySnapshot"} {
